@@ -599,9 +599,8 @@ func (cc *Conn) prepareWriteMessage(req *pool.Message, handler HandlerFunc, gave
 			closeFns.Execute()
 			return nil, nil, fmt.Errorf("cannot insert mid(%v) handler: %w", req.MessageID(), coapErrors.ErrKeyAlreadyExists)
 		}
-		closeFns = append(closeFns, func() {
-			_, _ = cc.midHandlerContainer.LoadAndDelete(req.MessageID())
-		})
+		mid := req.MessageID()
+		closeFns = append(closeFns, func() { cc.removeMidElement(mid, elem) })
 	case message.NonConfirmable:
 		/* TODO need to acquireOutstandingInteraction
 		if req.Code() >= codes.GET && req.Code() <= codes.DELETE {
@@ -609,6 +608,19 @@ func (cc *Conn) prepareWriteMessage(req *pool.Message, handler HandlerFunc, gave
 		*/
 	}
 	return closeFns.ToFunction(), arm, nil
+}
+
+// removeMidElement removes the continuation elem of message ID mid - if it is still the one stored under that ID: the
+// ID may have been given to a later message meanwhile (the counter jumps when the peer's IDs come near it), and that
+// message's continuation is not this caller's to remove. The copy kept for retransmission is released.
+func (cc *Conn) removeMidElement(mid int32, elem *midElement) {
+	cc.midHandlerContainer.ReplaceWithFunc(mid, func(old *midElement, loaded bool) (*midElement, bool) {
+		if loaded && old == elem {
+			return nil, true
+		}
+		return old, !loaded
+	})
+	elem.ReleaseMessage(cc)
 }
 
 func (cc *Conn) writeMessageAsync(req *pool.Message) error {
@@ -704,11 +716,7 @@ func (cc *Conn) AsyncPing(receivedPong func()) (func(), error) {
 	if _, loaded := cc.midHandlerContainer.LoadOrStore(mid, pingElem); loaded {
 		return nil, fmt.Errorf("cannot insert mid(%v) handler: %w", mid, coapErrors.ErrKeyAlreadyExists)
 	}
-	removeMidHandler := func() {
-		if elem, ok := cc.midHandlerContainer.LoadAndDelete(mid); ok {
-			elem.ReleaseMessage(cc)
-		}
-	}
+	removeMidHandler := func() { cc.removeMidElement(mid, pingElem) }
 	if err := cc.session.WriteMessage(req); err != nil {
 		removeMidHandler()
 		return nil, fmt.Errorf(errFmtWriteRequest, err)
